@@ -1,5 +1,5 @@
 (* C10 — The model does not depend on the order in which statements are written. *)
-From GX Require Import Base Expr Topo Ode Target Sem Codegen Load Perm LoadPerm.
+From GX Require Import Base Expr Topo KahnSound Ode OrderSound Target Sem Codegen Load Perm LoadPerm.
 From Coq Require Import Permutation.
 Open Scope string_scope.
 Open Scope list_scope.
@@ -75,3 +75,25 @@ Theorem C10_definitions_are_found_by_name_wherever_they_stand :
   forall o o', ode_equiv o o' -> unique_assign_names o -> forall x, find_assign o x = find_assign o' x.
 Proof. exact find_assign_inv. Qed.
 Print Assumptions C10_definitions_are_found_by_name_wherever_they_stand.
+
+(* "use-before-definition in the text is allowed": whether the assignments of a model can be ordered is
+   decided by the dependency relation alone - an order is found exactly when the definitions can be ranked
+   (are acyclic), whatever position they have in the text; in particular a model one listing of which defines
+   everything before its use is ordered from every other listing too *)
+Theorem C10_an_order_exists_iff_the_definitions_are_acyclic :
+  forall o ru,
+    (exists ord, sorted_names o ru = Some ord)
+    <-> exists rank : string -> nat,
+          forall n d, In n (all_assign_names o) -> In d (deps_of o n) -> rank d < rank n.
+Proof. exact sorted_names_iff_ranked. Qed.
+Print Assumptions C10_an_order_exists_iff_the_definitions_are_acyclic.
+
+Theorem C10_a_model_listed_in_dependency_order_somewhere_is_always_ordered :
+  forall o ru (listing : list string),
+    NoDup listing ->
+    (forall n, In n (all_assign_names o) -> In n listing) ->
+    (forall pre n post, listing = pre ++ n :: post -> In n (all_assign_names o) ->
+       forall d, In d (deps_of o n) -> In d (all_assign_names o) -> In d pre) ->
+    exists ord, sorted_names o ru = Some ord.
+Proof. exact listed_in_dependency_order_is_sorted. Qed.
+Print Assumptions C10_a_model_listed_in_dependency_order_somewhere_is_always_ordered.
